@@ -20,7 +20,9 @@ package pubsub
 //@   | forall(a, forall(b, (a != b && has(state.subscriptions, a) && has(state.subscriptions, b)) ==> (ref(state.subscriptions[a]) != ref(state.subscriptions[b]) && state.queries[a] != state.queries[b])))
 
 //@ func state.add
+//@   checks allocwf
 //@   requires wf: wfSubs(state) && subscription != nil
+//@   requires fresh: !(has(state.subscriptions, imethod(q, String)) && has(state.subscriptions[imethod(q, String)], clientID))
 //@   ensures wf: wfSubs(state)
 //@   ensures added: has(state.subscriptions, imethod(q, String)) && has(state.subscriptions[imethod(q, String)], clientID) && state.subscriptions[imethod(q, String)][clientID] == subscription
 
